@@ -129,6 +129,12 @@ def run(sim, params):
             src_loc, src_conn, src_host_root, src_vroot = c.location("n0"), c, os.path.join(c.roots["n0"], "src"), os.path.join(c.visible_root("n0"), "src")
         os.makedirs(src_host_root, exist_ok=True)
         top, spec = SS.make_tree(src_host_root, t, big=big)
+        if "" in spec and spec[""][0] == "dir" and t.draw(3, "tree.empty_exec") == 2:
+            # an EMPTY file with the executable bit: no data block follows its header, the mode must still be restored
+            with open(os.path.join(src_host_root, top, "empty-exec.sh"), "w"):
+                pass
+            os.chmod(os.path.join(src_host_root, top, "empty-exec.sh"), 0o755)
+            spec["empty-exec.sh"] = ("file", b"", 0o755)
         if TOPS[topcls] is not None and "" in spec:
             new = TOPS[topcls] + ("" if spec[""][0] == "dir" else ".dat")
             os.rename(os.path.join(src_host_root, top), os.path.join(src_host_root, new))
